@@ -1,6 +1,8 @@
 package checks
 
 import (
+	"crypto/sha256"
+	"errors"
 	"fmt"
 	"io"
 	"net/http"
@@ -90,4 +92,95 @@ func c18AttemptTimeouts(rep *vk.Report, idx int, srv *c18Server) {
 	}
 	rep.Count("http_attempt_timeouts_retried", 1)
 	rep.Distinct(fmt.Sprintf("attempt-timeout|%s|%s|%d", entry, limit, len(steps)*10+want))
+}
+
+type bothRT struct{ calls *int }
+
+var errBothRT = errors.New("inner transport: partial failure")
+
+// RoundTrip returns a response together with an error, as an inner transport or an http.Client refusing a redirect does.
+func (b bothRT) RoundTrip(r *http.Request) (*http.Response, error) {
+	*b.calls++
+	return &http.Response{StatusCode: 302, Status: "302 Found", Header: http.Header{"Location": {"/elsewhere"}, "X-Seen": {"yes"}}, Body: http.NoBody, Request: r}, errBothRT
+}
+
+// c18ResponseWithError: the adapter is transparent for an attempt that yields a response AND an error: with no policy
+// that retries or replaces it, the caller of the failsafe RoundTripper gets both, as from the inner RoundTripper itself.
+func c18ResponseWithError(rep *vk.Report, idx int) {
+	r := vk.Rng(rep.Seed, "C18b", idx)
+	stack := vk.Pick(r, "none", "timeout", "breaker", "hedge")
+	calls := 0
+	rt := failsafehttp.NewRoundTripperWithExecutor(bothRT{&calls}, failsafe.NewExecutor[*http.Response](c18Stack(stack)...))
+	req, _ := http.NewRequest("GET", "http://example.invalid/x", nil)
+	resp, err := rt.RoundTrip(req)
+	rep.Eval()
+	if calls != 1 || !errors.Is(err, errBothRT) || resp == nil || resp.StatusCode != 302 || resp.Header.Get("X-Seen") != "yes" {
+		st := 0
+		if resp != nil {
+			st = resp.StatusCode
+		}
+		rep.Violate(idx, "C18/response-with-error-not-passed-through", fmt.Sprintf("stack %s: the inner RoundTripper returned a 302 response together with an error (called %d times); the failsafe RoundTripper returned response=%v (status %d), err=%v", stack, calls, resp != nil, st, err), map[string]any{"stack": stack})
+		return
+	}
+	rep.Count("response_with_error_passed_through", 1)
+	rep.Distinct("both|" + stack)
+}
+
+// c18SameBodyTwice: one seekable body value is sent twice (two executions, each with a retried attempt): every attempt of
+// both sends reaches the server with the complete body.
+func c18SameBodyTwice(rep *vk.Report, idx int, srv *c18Server) {
+	r := vk.Rng(rep.Seed, "C18s", idx)
+	kind := vk.Pick(r, "file", "bytesreader", "stringsreader")
+	size := vk.Pick(r, 1, 33, 4096)
+	body, data, cleanup := c18Body(kind, size, idx)
+	defer cleanup()
+	sum := sha256.Sum256(data)
+	tr := &http.Transport{}
+	defer tr.CloseIdleConnections()
+	for send := 0; send < 2; send++ {
+		id := fmt.Sprintf("s%d-%d-%d", idx, send, c18Ids.Add(1))
+		call := &srvCall{steps: []srvStep{{Status: 503}, {Status: 200}}}
+		srv.calls.Store(id, call)
+		// the caller owns the body and hands the SAME value over again; NopCloser keeps the client from closing a file
+		req, err := http.NewRequest("POST", srv.srv.URL+fmt.Sprintf("/twice/%d", idx), io.NopCloser(body))
+		if err != nil {
+			srv.calls.Delete(id)
+			return
+		}
+		req.Body = struct {
+			io.Reader
+			io.Seeker
+			io.Closer
+		}{body, body.(io.Seeker), io.NopCloser(nil)}
+		req.ContentLength = int64(len(data))
+		req.Header.Set("X-Call", id)
+		ex := failsafe.NewExecutor[*http.Response](failsafehttp.RetryPolicyBuilder().WithMaxRetries(2).Build())
+		var resp *http.Response
+		if r.IntN(2) == 0 {
+			resp, err = (&http.Client{Transport: failsafehttp.NewRoundTripperWithExecutor(tr, ex)}).Do(req)
+		} else {
+			resp, err = failsafehttp.NewRequestWithExecutor(req, &http.Client{Transport: tr}, ex).Do()
+		}
+		if resp != nil {
+			io.Copy(io.Discard, resp.Body)
+			resp.Body.Close()
+		}
+		call.mu.Lock()
+		atts := append([]srvAttempt(nil), call.attempts...)
+		call.mu.Unlock()
+		srv.calls.Delete(id)
+		rep.Eval()
+		if err != nil || len(atts) != 2 {
+			rep.Violate(idx, "C18/attempt-count", fmt.Sprintf("send #%d of one %s body (%d bytes), script 503 then 200: server saw %d attempts, err=%v", send+1, kind, size, len(atts), err), map[string]any{"body_kind": kind, "size": size, "send": send + 1})
+			return
+		}
+		for k, a := range atts {
+			if a.bodyLen != len(data) || a.bodySum != sum {
+				rep.Violate(idx, "C18/attempt-body-differs", fmt.Sprintf("send #%d of one %s body: attempt %d arrived with a %d-byte body (hash match=%v), original %d bytes", send+1, kind, k, a.bodyLen, a.bodySum == sum, len(data)), map[string]any{"body_kind": kind, "size": size, "send": send + 1})
+				return
+			}
+		}
+	}
+	rep.Count("same_body_sent_twice", 1)
+	rep.Distinct(fmt.Sprintf("twice|%s|%d", kind, size))
 }
